@@ -583,3 +583,31 @@ PROPS["C10"] = {
         plain_unit("replay", "^TestC10_Replay$", replay=True),
     ],
 }
+
+# engine R (real time): millisecond flags and the server's own dispatcher loops (harness/server/er_*.go, notes/ER.md)
+_R_RULE = ("engine R (real time): one fresh in-process leader per case with its own clock/time-out/expiry goroutines and millisecond "
+           "wheels, 1..3 in-memory clients, rapid-drawn script of 3..14 LOCK/UNLOCK/sleep steps on 1..2 keys (Timeout 0 | 1..2500 ms "
+           "with the millisecond flag | 1..3 s; Expried 30..2500 ms with the flag | 1..3 s | unlimited; Count 0..2; re-entrant re-locks "
+           "and updates; sleeps 0..1500 ms; optional alignment of the start to an offset inside the wall-clock second). Every request "
+           "is stamped before/after the call, every reply in the callback (monotonic clock, wall second, server's sampled clock, "
+           "goroutine). Oracle: early = violation (ms: T-2 ms; s: T minus the measured staleness of the sampled clock; expiry from the "
+           "latest sound lower bound of the moment the terms were set; a grant that needs an unexpired hold to be gone), late = "
+           "T/E + 2 s + max(50 ms, 3 x worst observed delay) and only when that delay was < 200 ms; order violations always. A violation "
+           "is reported only if it recurs in 1..3 re-executions. Non-trivial: a millisecond-flag timer fired while another request was "
+           "queued or held on the key. Distinct = FNV-64 of parameters + script.")
+_R_ASSUME = [
+    "engine R: only LockIds whose earlier lock requests all had Timeout 0 are re-locked/updated (engine A's LockId assumption)",
+    "engine R: the wall clock is not stepped during a case (a case in which wall and monotonic clock diverge by > 2 ms is discarded)",
+    "engine R: sub-granularity is not judged: a millisecond timer may fire up to 2 ms before T (two truncations to whole ms)",
+    "engine R: an update that shortens the deadline, or moves it by <= 1 unit, is not judged for lateness",
+    "engine R: lateness is judged only when the measured scheduling delay of the process stayed below 200 ms; cases that could not be kept on schedule are discarded (counted)",
+    "engine R: cases run 4 at a time per process on separate instances; a failure is reported only if it recurs when the case is executed again",
+]
+for _p in ("C05", "C06"):
+    PROPS[_p]["units"] += [
+        rapid_unit("R-" + _p, "^Test" + _p + "_RealTime$", quick={"checks": 192, "shards": 16, "timeout_s": 400},
+                   thorough={"checks": 3200, "shards": 16, "timeout_s": 1800}),
+        plain_unit("replay-rt-" + _p, "^Test" + _p + "_RTReplay$", replay=True, replay_match="^rt-", quick={"shards": 1, "timeout_s": 300}),
+    ]
+    PROPS[_p]["rule"] = PROPS[_p]["rule"] + " Second engine: " + _R_RULE
+    PROPS[_p]["assumptions"] = PROPS[_p]["assumptions"] + _R_ASSUME
